@@ -246,32 +246,62 @@ Proof.
   - simpl in Hi. rewrite (IH i) by lia. simpl. lra.
 Qed.
 
+Lemma split_val_nonzero fixz first (v len total : R) :
+  total <> 0 -> @split_val RNum fixz first v len total = v * len / total.
+Proof.
+  intros H. unfold split_val. cbn [eqb RNum zero].
+  rewrite (proj2 (Reqb_false total 0) H). rewrite andb_false_r. reflexivity.
+Qed.
+
+Lemma split_val_zero_fixed first (v len : R) :
+  @split_val RNum true first v len 0 = if first then v else 0.
+Proof.
+  unfold split_val. cbn [eqb RNum zero andb]. rewrite (proj2 (Reqb_true 0 0) eq_refl). reflexivity.
+Qed.
+
 (* the two parts together carry exactly the trajectory's values *)
-Lemma split_vals_sum (var : list R) i (len1 len2 : R) :
+Lemma split_vals_sum fixz (var : list R) i (len1 len2 : R) :
   (i < length var)%nat -> len1 + len2 <> 0 ->
-  Rsum (@first_vals RNum var i len1 (len1 + len2)) + Rsum (@second_vals RNum var i len2 (len1 + len2))
+  Rsum (@first_vals RNum fixz var i len1 (len1 + len2)) + Rsum (@second_vals RNum fixz var i len2 (len1 + len2))
   = Rsum var.
 Proof.
-  intros Hi Ht. unfold first_vals, second_vals. rewrite Rsum_app. cbn [Rsum zero RNum mul div].
+  intros Hi Ht. unfold first_vals, second_vals. rewrite Rsum_app.
+  rewrite !split_val_nonzero by exact Ht. cbn [Rsum zero RNum mul div].
   change (T RNum) with R in *.
   rewrite (Rsum_firstn_skipn var i Hi).
   pose proof (dateline_split_sums (nth i var 0) len1 len2 Ht). lra.
 Qed.
 
+(* repaired (FC04a): also a crossing segment of total length 0 keeps its value *)
+Lemma split_vals_sum_zero_fixed (var : list R) i (len1 len2 : R) :
+  (i < length var)%nat -> len1 + len2 = 0 ->
+  Rsum (@first_vals RNum true var i len1 (len1 + len2)) + Rsum (@second_vals RNum true var i len2 (len1 + len2))
+  = Rsum var.
+Proof.
+  intros Hi Ht. unfold first_vals, second_vals. rewrite Rsum_app. rewrite Ht.
+  rewrite !split_val_zero_fixed. cbn [Rsum zero RNum].
+  change (T RNum) with R in *.
+  rewrite (Rsum_firstn_skipn var i Hi). lra.
+Qed.
+
 (* conservation through the split: if every segment of both parts is good, nothing is lost *)
-Lemma values_dateline_ge fix3 i (var : list R) (dd1 dd2 : list (R * list R)) :
+Lemma values_dateline_ge fix3 fixz i (var : list R) (dd1 dd2 : list (R * list R)) :
   let len1 := fst (last dd1 (0, [])) in
   let len2 := fst (hd (0, []) dd2) in
-  (i < length var)%nat -> len1 + len2 <> 0 ->
-  Forall2 (good fix3) (@first_vals RNum var i len1 (len1 + len2)) dd1 ->
-  Forall2 (good fix3) (@second_vals RNum var i len2 (len1 + len2)) dd2 ->
-  forall out, @values RNum fix3 1%Z i [var] [dd1; dd2] = [out] -> Rsum var <= Rsum out.
+  (i < length var)%nat -> (len1 + len2 <> 0 \/ fixz = true) ->
+  Forall2 (good fix3) (@first_vals RNum fixz var i len1 (len1 + len2)) dd1 ->
+  Forall2 (good fix3) (@second_vals RNum fixz var i len2 (len1 + len2)) dd2 ->
+  forall out, @values RNum fix3 fixz 1%Z i [var] [dd1; dd2] = [out] -> Rsum var <= Rsum out.
 Proof.
   intros len1 len2 Hi Ht G1 G2 out E.
   unfold values in E. cbn [map] in E. injection E as <-.
   rewrite Rsum_app. fold len1 len2.
   pose proof (part_values_ge _ _ _ G1). pose proof (part_values_ge _ _ _ G2).
-  pose proof (split_vals_sum var i len1 len2 Hi Ht).
+  assert (S : Rsum (@first_vals RNum fixz var i len1 (len1 + len2))
+              + Rsum (@second_vals RNum fixz var i len2 (len1 + len2)) = Rsum var).
+  { destruct (Req_dec (len1 + len2) 0) as [Z|NZ].
+    - destruct Ht as [Ht|Ht]; [contradiction|]. subst fixz. apply split_vals_sum_zero_fixed; assumption.
+    - apply split_vals_sum; assumption. }
   cbn [zero RNum add] in *. lra.
 Qed.
 
@@ -289,9 +319,9 @@ Section MetricWhole.
   Hypothesis dist_refl : forall p, dist p p = 0.
   Hypothesis dist_tri : forall p q r, dist p r <= dist p q + dist q r.
 
-  Lemma grid_integrated_no_crossing clamp fix3 fixdl glat glon pts vars :
+  Lemma grid_integrated_no_crossing clamp fix3 fixdl fixz glat glon pts vars :
     count_nonzero (@crossings RNum (map snd pts)) = O ->
-    @grid_integrated RNum dist clamp fix3 fixdl glat glon pts vars
+    @grid_integrated RNum dist clamp fix3 fixdl fixz glat glon pts vars
     = map (fun var => @part_values RNum fix3 var
                         (@attach_dists RNum dist (@part_geometry RNum clamp glat glon pts))) vars.
   Proof.
@@ -300,12 +330,12 @@ Section MetricWhole.
   Qed.
 
   (* gridded total >= trajectory total, for every integrated variable *)
-  Lemma grid_total_ge clamp fix3 fixdl glat glon pts vars :
+  Lemma grid_total_ge clamp fix3 fixdl fixz glat glon pts vars :
     count_nonzero (@crossings RNum (map snd pts)) = O ->
     Forall (fun var => length var = length (pairs pts) /\ Forall (fun v => 0 <= v) var) vars ->
     (fix3 = true \/ Forall (fun s => dist (fst s) (snd s) <> 0) (pairs pts)) ->
     Forall2 (fun var out => Rsum var <= Rsum out) vars
-            (@grid_integrated RNum dist clamp fix3 fixdl glat glon pts vars).
+            (@grid_integrated RNum dist clamp fix3 fixdl fixz glat glon pts vars).
   Proof.
     intros H Hv Hz. rewrite grid_integrated_no_crossing by exact H.
     induction vars as [|var vars IH]; [constructor|].
@@ -315,12 +345,12 @@ Section MetricWhole.
   Qed.
 
   (* and it is exact when lengths are additive along every chain *)
-  Lemma grid_total_exact clamp fix3 fixdl glat glon pts var :
+  Lemma grid_total_exact clamp fix3 fixdl fixz glat glon pts var :
     count_nonzero (@crossings RNum (map snd pts)) = O ->
     length var = length (pairs pts) ->
     Forall (fun x => fst x <> 0 /\ Rsum (snd x) = fst x)
            (@attach_dists RNum dist (@part_geometry RNum clamp glat glon pts)) ->
-    forall out, @grid_integrated RNum dist clamp fix3 fixdl glat glon pts [var] = [out] -> Rsum out = Rsum var.
+    forall out, @grid_integrated RNum dist clamp fix3 fixdl fixz glat glon pts [var] = [out] -> Rsum out = Rsum var.
   Proof.
     intros H Hl Hadd out E. rewrite grid_integrated_no_crossing in E by exact H.
     cbn [map] in E. injection E as <-.
@@ -369,16 +399,16 @@ Proof.
   replace (/2 - /2) with 0 by lra. rewrite Rabs_R0. replace (0 + 0) with 0 by lra. reflexivity.
 Qed.
 
-Lemma zero_length_dropped_as_coded clamp fixdl :
-  @grid_integrated RNum f3_dist clamp false fixdl [0; 1] [0; 1] [(/2, /2); (/2, /2)] [[5]] = [[0]].
+Lemma zero_length_dropped_as_coded clamp fixdl fixz :
+  @grid_integrated RNum f3_dist clamp false fixdl fixz [0; 1] [0; 1] [(/2, /2); (/2, /2)] [[5]] = [[0]].
 Proof.
   rewrite grid_integrated_no_crossing by exact f3_no_crossing. cbn [map]. rewrite f3_witness_dists.
   unfold part_values. cbn [map2 fst snd concat app]. unfold seg_values. cbn [map length].
   rewrite frac_zero_coded. cbn [mul RNum]. replace (5 * 0) with 0 by lra. reflexivity.
 Qed.
 
-Lemma zero_length_kept_when_fixed clamp fixdl :
-  @grid_integrated RNum f3_dist clamp true fixdl [0; 1] [0; 1] [(/2, /2); (/2, /2)] [[5]] = [[5]].
+Lemma zero_length_kept_when_fixed clamp fixdl fixz :
+  @grid_integrated RNum f3_dist clamp true fixdl fixz [0; 1] [0; 1] [(/2, /2); (/2, /2)] [[5]] = [[5]].
 Proof.
   rewrite grid_integrated_no_crossing by exact f3_no_crossing. cbn [map]. rewrite f3_witness_dists.
   unfold part_values. cbn [map2 fst snd concat app]. unfold seg_values. cbn [map length].
